@@ -53,6 +53,31 @@ CLAIMED = {
    note='Assumes ast.literal_eval raises only ValueError, TypeError, SyntaxError (MemoryError/RecursionError = resource exhaustion, excluded); http: and custom checks are outside the quantifier.',
    technique='Coq proof (induction on fuel and tree with generated handler sets) + differential correspondence',
    design='6 C14'),
+ 'C09': dict(
+   text='Proof (Coq): for every file-system layout (any number of directories, files, names) a freshly started enforcer in overwrite mode holds, for every name, exactly the last definition in the documented order (registered default < policy file < directories in configured order, files sorted by name, dot-files and sub-directories ignored, missing file/directories skipped), names defined nowhere stay undefined; pick_default_policy_file is translated from source into a decision tree each run and proved equal to the documented selection rule. Differential: all 256 layer subsets for one name (random for a second) with JSON/YAML mixes against real files, vs the model and the extracted spec_rule; the 224-row file-selection table against real oslo.config. Partial: JSON/YAML equivalence (yaml.safe_load/jsonutils.loads) and oslo.config find_file/get_location are oracles.',
+   note='Python list.sort of file names is modelled by an insertion sort on code points; os.walk/listdir/getmtime are the file-system oracle with synthetic mtimes; a directory whose newest mtime is 0 (the epoch) is outside the theorem (counterexample proved in Coq).',
+   technique='Coq proof (last-writer-wins fold lemmas, defaults loop invariant) + generated decision trees + differential on real files',
+   design='6 C09'),
+ 'C10': dict(
+   text='Proof (Coq): invariant by induction over histories of ANY length: if every change stamps the changed file later than the clock (entry creation/removal stamps the directory) and no configured directory is removed, then after every load the long-lived enforcer holds exactly the rules and file rules (list equality) that a fresh enforcer computes from the current files; covers the "not self.rules" clause, the deleted main file (F6 repair), a re-created main file, directories appearing later. Differential: all operation sequences of length <= 2 (3 in thorough) over 13 operations plus random histories up to 40 steps on real files with synthetic mtimes; long-lived vs new Enforcer after every step, and model vs implementation.',
+   note='Hypotheses proved necessary by counterexample: directories persist, stamps strictly advance, overwrite mode. File-system timestamp behaviour is the stated oracle.',
+   technique='Coq proof (history invariant with clock discipline) + differential on real files',
+   design='6 C10'),
+ 'C11': dict(
+   text='Proof (Coq): the guards of _handle_deprecated_rule are translated from source into a decision tree each run and proved equal to the documented override table for a name no file defines; within a load, a file definition under the new name always governs; the table depends on the state only through the file definition under the old name. Differential: the whole configuration product (renamed/same-name, same/different strings, enforce_new_defaults, new/old overrides incl. alias, main file or directory, shared predecessor) x check-string pairs: effective check vs extracted spec, decisions over role subsets vs the statement, model vs implementation.',
+   note='file_rule.check != deprecated_rule.check compares separately parsed trees by identity and is modelled as the constant it is (the statement leaves that row unconstrained).',
+   technique='Coq proof over a decision tree generated from source + exhaustive configuration product',
+   design='6 C11'),
+ 'C12': dict(
+   text='Proof (Coq): load_rules is idempotent as a function on the WHOLE enforcer state from any state (so k loads = one load and a merged OrCheck cannot grow); a forced reload after any history equals the fresh computation; frame facts regenerated from policy.py each run (the only writes through received references are four known sites, none on a RuleDefault/DeprecatedRule; both deep copies present) are proved equal to the expected list. Differential: interleavings of {load, forced load, enforce, edit} over 1-3 enforcers sharing the same RuleDefault objects: effective policy stable, deep snapshots (incl. object identities) of the shared objects unchanged, each enforcer equal to the pure model run on its own history. Partial: Python aliasing is not expressible in the functional model; frame facts + snapshots tie it.',
+   note='The frame analysis is a syntactic taint from parameters and self.registered_rules; it cannot see mutation through other aliases.',
+   technique='Coq proof (fixed point of the load function) + generated frame facts + differential interleavings',
+   design='6 C12'),
+ 'C16': dict(
+   text='Proof (Coq): accept(body) holds iff body = "*True"* ; an http(s) leaf yields Ok true only on a reply whose body is accepted; a timeout yields RuntimeError and a transport fault is raised; the request names the current rule the evaluation started with at any depth (trace invariant) and carries the complete target with only top-level opaque objects blanked. Differential with requests.post stubbed: all bodies of length <= 4 (5 thorough) over the alphabet around the accepted form plus hand-picked ones, 9 status codes, placements under not/nesting/alias, fault kinds, both encodings x nested/opaque targets, TLS pre-check table. Partial: real transport is stubbed; that the caller target is unmodified is copy.deepcopy behaviour, checked by identity snapshot.',
+   note='requests, copy.deepcopy and jsonutils.dumps are oracles.',
+   technique='Coq proof (string characterisation, trace invariant) + differential with a recording stub',
+   design='6 C16'),
 }
 REASON_PENDING = 'check not built yet in this session (model/theorems in progress); not claimed'
 def main():
